@@ -974,6 +974,9 @@ func genC05(c *Ctx) {
 			c.c05DegreeContract(s)
 		}
 		c.c05MissingKey(s)
+		for k := 0; k < c.Scale(6, 60); k++ {
+			c.c05CoeffProgram(s, c.Scale(8, 12))
+		}
 	}
 	c.c05ProbeQMul()
 }
